@@ -17,6 +17,9 @@ PROPS = {
             "C10_wf_check_gen_sound": [],
             "C10_trace_complete_check_sound": [],
             "C10_span_table_vs_vm": [],
+            "C10_compile_wellformed_partial": [],
+            "C10_A23_witness": [],
+            "C10_A24_witness": [],
         },
         n_quick=320, n_thorough=4000,
         gates=["obs.ok", "obs.panic", "obs.err.EInvalidJump", "obs.err.EDuplicateName", "obs.err.EEmptyVariable",
